@@ -15,7 +15,7 @@ Mirrors, branch for branch (free-form mode):
 * `Do.process_subitem`                — end label hit (`hit`), shared label put-back (`shared`)
 * `BeginStatement.process_subitem`    — `end_stmt_cls.match(line)` + `stmt.isvalid` (`endOk`), then the
                                          class list of the block in order, first valid match wins
-                                         (`scan`), `stmt.ignore` (`Action.skip`),
+                                         (`scan`), `stmt.ignore` (`Action.skip`), `Function.typedecl` (`nextCtx`),
                                          `handle_unknown_item_and_raise` (`Err.nopattern`)
 * `EndStatement.process_item`, `EndDo.process_item`   — `endOk`
 * `BeginStatement.__init__` / the `process_item` of the Begin classes — `childCtx` (`name`,
@@ -73,7 +73,7 @@ inductive Action
   | comment
   | putback
   | close
-  | skip (typed : Bool)
+  | skip
   | leaf (cls : Nat)
   | open_ (row : Nat) (ch : Ctx)
   | unknown
@@ -171,7 +171,16 @@ def childCtx (T : Tables) (c : Ctx) (ri : Nat) (it : Item) : Ctx :=
     parentDo := if isDo T c then c.endlabel else none,
     typed := it.typedHdr }
 
-/-- the class list of the block, first valid match wins -/
+/-- `TypeDeclarationStatement.process_item`: a type declaration naming the enclosing FUNCTION becomes
+    the function's `typedecl`; the block goes on with this state -/
+def typesFn (T : Tables) (c : Ctx) (it : Item) : Bool :=
+  !it.isComment && isFunction T c && it.decls.contains c.name
+
+def nextCtx (T : Tables) (c : Ctx) (it : Item) : Ctx := { c with typed := c.typed || typesFn T c it }
+
+/-- the class list of the block, first valid match wins.  A type declaration that names the enclosing
+    FUNCTION sets `Function.typedecl` (AssertionError if it is set already); it is ignored
+    (`stmt.ignore`) only when it declares nothing else - otherwise it stays, for the other entities. -/
 def scan (T : Tables) (c : Ctx) (it : Item) : List Nat → Action
   | [] => .unknown
   | k :: ks =>
@@ -183,9 +192,10 @@ def scan (T : Tables) (c : Ctx) (it : Item) : List Nat → Action
     | none =>
       if it.cands.contains k then
         if k == classId T "SubprogramPrefix" then
-          (if isSub T c then .skip c.typed else scan T c it ks)
-        else if isFunction T c && it.decls.contains c.name then
-          (if c.typed then .assertFail else .skip true)
+          (if isSub T c then .skip else scan T c it ks)
+        else if typesFn T c it then
+          (if c.typed then .assertFail
+           else if it.decls.all (· == c.name) then .skip else .leaf k)
         else .leaf k
       else scan T c it ks
 
@@ -205,17 +215,17 @@ def fill (T : Tables) (ic : Bool) : Nat → Ctx → List Item → Except Err (Fo
     else
       match step T c it with
       | .comment =>
-        (match fill T ic f c ls with
+        (match fill T ic f (nextCtx T c it) ls with
          | .error e => .error e
          | .ok (nx, rest) => .ok (.leaf it (classId T "Comment") nx, rest))
       | .putback => .ok (.nil, it :: ls)
       | .close => .ok (.endl it .nil, ls)
-      | .skip ty =>
-        if hit T c it then .ok (.nil, ls) else fill T ic f { c with typed := ty } ls
+      | .skip =>
+        if hit T c it then .ok (.nil, ls) else fill T ic f (nextCtx T c it) ls
       | .leaf k =>
         if hit T c it then .ok (.leaf it k .nil, ls)
         else
-          (match fill T ic f c ls with
+          (match fill T ic f (nextCtx T c it) ls with
            | .error e => .error e
            | .ok (nx, rest) => .ok (.leaf it k nx, rest))
       | .open_ ri ch =>
@@ -275,7 +285,7 @@ def PLine.id : PLine → Nat
     the END statement is printed from the block -/
 def pr (T : Tables) (c : Ctx) : Forest → List PLine
   | .nil => []
-  | .leaf it k nx => .stmt it k :: pr T c nx
+  | .leaf it k nx => .stmt it k :: pr T (nextCtx T c it) nx
   | .endl it nx => .endl it.id it.label (endText T c) :: pr T c nx
   | .blk it ri ch kids nx => .hdr (reHdr T it ri ch) ri ch :: (pr T ch kids ++ pr T c nx)
 
@@ -307,15 +317,22 @@ def Forest.size : Forest → Nat
     `Props/One2.lean`) -/
 def restep (T : Tables) (c : Ctx) : Forest → Bool
   | .nil => true
-  | .leaf _ _ nx => restep T c nx
+  | .leaf it _ nx => restep T (nextCtx T c it) nx
   | .endl it nx => step T c (reEnd it.id it.label (endText T c)) == .close && restep T c nx
   | .blk it ri ch kids nx =>
     step T c (reHdr T it ri ch) == .open_ ri ch && restep T ch kids && restep T c nx
 
+/-- a type declaration that declares one name only (possibly repeated) -/
+def singleDecl (it : Item) : Bool :=
+  match it.decls with
+  | [] => false
+  | d :: ds => ds.all (· == d)
+
 /-- items that `fill` may leave out of the tree: comments (`ignore_comments`), a bare prefix line
-    (`pure` / `elemental` / `recursive`), a type declaration (it becomes the function's type) -/
+    (`pure` / `elemental` / `recursive`), a type declaration of a single name (when that is the
+    enclosing FUNCTION it becomes the function's type and is printed in the header) -/
 def droppable (T : Tables) (it : Item) : Bool :=
-  it.isComment || it.cands.contains (classId T "SubprogramPrefix") || it.decls != []
+  it.isComment || it.cands.contains (classId T "SubprogramPrefix") || singleDecl it
 
 /-! ## rendering for the driver -/
 
